@@ -116,6 +116,25 @@ def roundtrip(ctx, res, d, basefile, target, tfmt, dfmt, stem, what, detail, var
         res.violate('roundtrip', 'base + bkld(base, target) does not evaluate to target (%s)' % what, diff=r.out.decode('utf-8', 'replace'), got=got, **detail)
         return False
     res.last_diff = r.out
+    if r.out.strip() and not veq(detail.get('base'), target) and variant != 'layered-target':
+        # second way of applying the layer: as a second input next to the base, inheritance switched off
+        lname = 'applied%d.%s' % (ctx.tgt_n, dfmt)
+        with open(os.path.join(d, lname), 'wb') as f:
+            f.write(r.out)
+        r3 = cli([ctx.bin('bkl'), '-P', '-f', 'json', basefile, lname], cwd=d)
+        res.execs += 1
+        if r3.rc != 0:
+            res.violate('roundtrip', 'bkl -P base layer rejects the layer bkld emitted (%s): %s' % (what, r3.err[-300:].decode('utf-8', 'replace')), diff=r.out.decode('utf-8', 'replace'), **detail)
+            return False
+        try:
+            got3 = ser.parse_json_stream(r3.out.decode())
+        except Exception as e:
+            res.violate('roundtrip', 'bkl -P output not JSON: %s' % e, **detail)
+            return False
+        if not veq(got3, [target], loose=True):
+            res.violate('roundtrip', 'bkl -P base layer does not evaluate to target (%s)' % what, diff=r.out.decode('utf-8', 'replace'), got=got3, **detail)
+            return False
+        res.ev('applied_as_second_input')
     return True
 
 
